@@ -417,6 +417,12 @@ def k5(ctx):
         for n in _commit_nodes(cfg):
             c = [c for c in n.calls() if (dotted(c.func) or "").endswith("_commit_tree")][0]
             a = c.args[0] if c.args else None
+            if isinstance(a, ast.Name):
+                # the id taken into a local first (`new_tree_id = tree.id`)
+                from ..dataflow import origins as _origins
+                _os = [o for o in _origins(DefUse(cfg), n, a)]
+                if len(_os) == 1 and _os[0].kind == "expr" and not _os[0].path and isinstance(_os[0].leaf, ast.Attribute):
+                    a = _os[0].leaf
             tv = dotted(a.value) if isinstance(a, ast.Attribute) and a.attr == "id" else None
             adds = [m for m in cfg.stmt_nodes() for cc in m.calls()
                     if (dotted(cc.func) or "").endswith("add_objects") or (dotted(cc.func) or "").endswith("add_object")
